@@ -4,8 +4,10 @@
    A round ([vacuum_round], the loop body of Topology.vacuumOneVolumeLayout) is
    driven by [scripts]: what every replica's VacuumVolumeCheck / Compact / Commit
    RPC does (answer over/under the threshold, error, no answer before the master's
-   timer; commit: ok, ok+IsReadOnly, error).  The master state is any state
-   reachable by heartbeats / collector sweeps / disconnects ([run], model of C11). *)
+   timer, nobody listening; commit: ok, ok+IsReadOnly, error, never answers) and by
+   the events the master processes while the replicas compact ([mid]).  The master
+   state is any state reachable by heartbeats / collector sweeps / disconnects
+   ([run], model of C11).  [round_of] is a round without master-side events. *)
 From Coq Require Import List NArith Bool.
 From SW Require Import model.TopoLayout model.Vacuum proof.TopoLayoutProofs proof.VacuumProofs.
 Import ListNotations.
@@ -13,9 +15,10 @@ Local Open Scope N_scope.
 
 (* Clause 2: no commit RPC reaches a replica unless EVERY compaction of the round
    (its own included) succeeded; such a replica has received the compact RPC and
-   never receives a cleanup.  For every layout, script and outcome combination. *)
-Theorem c14_commit_only_after_compact : forall c ns scs v locs l n,
-  let r := vacuum_round c ns scs v locs l in
+   never receives a cleanup.  For every master state, script, outcome combination
+   and every sequence of master-side events during the round. *)
+Theorem c14_commit_only_after_compact : forall c s scs mid v locs n,
+  let r := vacuum_round c s scs mid v locs in
   got (r_log r) v n RCommit = true ->
   let vac := fst (check_phase scs v locs) in
   In n vac /\ compact_ok scs v vac = true /\ is_cp_ok (sget scs v n) = true /\
@@ -24,81 +27,237 @@ Proof. exact commit_only_after_compact. Qed.
 Print Assumptions c14_commit_only_after_compact.
 
 (* ... and the same for a whole pass over a layout (one round per volume id). *)
-Theorem c14_layout_commit_only_after_compact : forall c ns scs l v n,
-  got (r_log (vacuum_layout c ns scs l)) v n RCommit = true ->
-  exists locs l', In (v, locs) (l_loc l) /\
-    let r := vacuum_round c ns scs v locs l' in
+Theorem c14_layout_commit_only_after_compact : forall c scs mids s v n,
+  got (q_log (vacuum_layout c scs mids s)) v n RCommit = true ->
+  exists locs s', In (v, locs) (l_loc (s_lay s)) /\
+    let r := vacuum_round c s' scs (mids v) v locs in
     let vac := fst (check_phase scs v locs) in
     In n vac /\ compact_ok scs v vac = true /\ is_cp_ok (sget scs v n) = true /\
     got (r_log r) v n RCompact = true /\ got (r_log r) v n RCleanup = false.
 Proof. exact layout_commit_only_after_compact. Qed.
 Print Assumptions c14_layout_commit_only_after_compact.
 
-(* Clause 1: replicas with the same live content keep the same live content,
-   whatever subset of them commits — GIVEN that compaction preserves the live
-   content (property C04; an explicit hypothesis here, not an axiom).  The commit
-   loop is sequential and not atomic (see c14_commit_not_atomic): replicas may end
-   with different files (compact revisions), never with different live content. *)
+(* Clause 1: after a round (any state, scripts, events) replicas with the same
+   live content keep the same live content, whatever subset of them commits, and a
+   replica whose files were swapped had a successful compaction and no cleanup —
+   GIVEN that compaction preserves the live content (property C04; an explicit
+   hypothesis here, not an axiom).  The commit loop is sequential and not atomic
+   (c14_commit_not_atomic): replicas may end with different files (compact
+   revisions), never with different live content. *)
 Theorem c14_same_content : forall (content live_t : Type) (live : content -> live_t)
   (compacted : content -> content),
   (forall x, live (compacted x) = live x) ->
-  forall log scs v (before : N -> content) n m,
+  forall c s scs mid v locs (before : N -> content) n m,
+    let log := r_log (vacuum_round c s scs mid v locs) in
     live (before n) = live (before m) ->
     live (content_after content compacted log scs v before n) =
-    live (content_after content compacted log scs v before m).
-Proof. exact same_content. Qed.
+    live (content_after content compacted log scs v before m) /\
+    (committed log scs v n = true -> is_cp_ok (sget scs v n) = true /\ got log v n RCleanup = false).
+Proof. exact same_content_round. Qed.
 Print Assumptions c14_same_content.
 
 Theorem c14_commit_not_atomic :
   let s := run cfg001 init [EFull 1 [vi 1 10 false]; EFull 2 [vi 1 10 false]] in
-  let scs := [(1, [(1, ok_script); (2, {| sc_ck := CkOver; sc_cp := CpOk; sc_cm := CmErr |})])] in
+  let scs := [(1, [(1, ok_script); (2, sc CkOver CpOk CmErr)])] in
   let r := round_of cfg001 s scs 1 in
   committed (r_log r) scs 1 1 = true /\ committed (r_log r) scs 1 2 = false /\
   log_of (r_log r) 1 2 = [RCheck; RCompact; RCommit] /\ writable_after cfg001 s scs 1 = false.
 Proof. exact commit_not_atomic_witness. Qed.
 Print Assumptions c14_commit_not_atomic.
 
-(* Clause 3 at full strength ([writable_iff c]: on every reachable master state
-   whose writable set agrees with the criterion for v, it still agrees after a
-   round on v) does NOT hold for the code.
-   Finding 0: a round that reached the compact phase and did not end in a clean
-   commit leaves a healthy volume out of writables. *)
+(* Clause 3.  A round that does not reach the compact phase (read-only volume,
+   check error / timeout / dial failure, nobody over the threshold) changes nothing
+   at all and sends nothing but check RPCs — on every state, with any events. *)
+Theorem c14_no_compact_no_change : forall c s scs mid v,
+  reaches_compact scs (s_lay s) v = false ->
+  let r := vacuum_round c s scs mid v (loc (s_lay s) v) in
+  r_st r = s /\ r_hung r = false /\ r_panic r = false /\
+  (r_log r = [] \/ r_log r = check_log scs v (loc (s_lay s) v)).
+Proof. exact no_compact_no_change. Qed.
+Print Assumptions c14_no_compact_no_change.
+
+(* A round touches only the writables: location list, readonlyVolumes and
+   oversizedVolumes are as before (rounds without master-side events). *)
+Theorem c14_round_frame : forall c s scs v,
+  let r := round_of c s scs v in
+  loc (r_lay r) v = loc (s_lay s) v /\ l_ro (r_lay r) = l_ro (s_lay s) /\ l_os (r_lay r) = l_os (s_lay s).
+Proof. exact round_of_frame. Qed.
+Print Assumptions c14_round_frame.
+
+(* Clause 3 at full strength — on every reachable master state a round leaves the
+   volume writable exactly when it was ([writable_unchanged]: the master that never
+   vacuums keeps its writable set), or, in terms of the C11 criterion,
+   [writable_iff] — does NOT hold for the code.
+   Finding 0: a round that removed a writable volume from writables and did not end
+   in a clean commit leaves it out.  On the witness the other triggers are false
+   and the volume is healthy (writable = criterion = true before). *)
+Theorem c14_writable_refuted_stuck :
+  let s := run cfg000 init stuck_history in
+  wf_history stuck_history /\
+  trigger_stuck stuck_scripts (s_lay s) 1 = true /\
+  trigger_readmit cfg000 (s_nodes s) stuck_scripts (s_lay s) 1 = false /\
+  trigger_hang stuck_scripts (s_lay s) 1 = false /\
+  writable s 1 = true /\ crit cfg000 (s_nodes s) 1 = true /\
+  writable_after cfg000 s stuck_scripts 1 = false.
+Proof. exact refuted_stuck_witness. Qed.
+Print Assumptions c14_writable_refuted_stuck.
+
+(* Finding 1: a clean commit makes a volume writable that was not and must not be
+   (a replica is read-only; or over the size limit, c14_readmit_oversized); the
+   other triggers are false on the witness. *)
+Theorem c14_writable_refuted_readmit :
+  let s := run cfg001 init readmit_history in
+  wf_history readmit_history /\
+  trigger_readmit cfg001 (s_nodes s) readmit_scripts (s_lay s) 1 = true /\
+  trigger_stuck readmit_scripts (s_lay s) 1 = false /\
+  trigger_hang readmit_scripts (s_lay s) 1 = false /\
+  writable s 1 = false /\ crit cfg001 (s_nodes s) 1 = false /\
+  writable_after cfg001 s readmit_scripts 1 = true.
+Proof. exact refuted_readmit_witness. Qed.
+Print Assumptions c14_writable_refuted_readmit.
+
 Theorem c14_writable_iff_refuted_stuck : exists c, 1 <= c_copy c /\ ~ writable_iff c.
 Proof. exact (ex_intro _ cfg000 (conj (N.le_refl 1) writable_iff_refuted_stuck)). Qed.
 Print Assumptions c14_writable_iff_refuted_stuck.
 
-(* Finding 1: a clean commit re-admits the volume although a replica is
-   read-only (or over the size limit, c14_readmit_oversized). *)
 Theorem c14_writable_iff_refuted_readmit : exists c, 1 <= c_copy c /\ ~ writable_iff c.
 Proof. exact (ex_intro _ cfg001 (conj (N.lt_le_incl 1 2 eq_refl) writable_iff_refuted_readmit)). Qed.
 Print Assumptions c14_writable_iff_refuted_readmit.
 
+Theorem c14_writable_unchanged_refuted : ~ writable_unchanged cfg000 /\ ~ writable_unchanged cfg001.
+Proof. exact writable_unchanged_refuted. Qed.
+Print Assumptions c14_writable_unchanged_refuted.
+
 Theorem c14_readmit_oversized :
   let s := run cfg000 init [EFull 1 [vi 1 10 false]; EFull 1 [vi 1 150 false]; ECollect] in
   writable s 1 = false /\ crit cfg000 (s_nodes s) 1 = false /\
+  trigger_readmit cfg000 (s_nodes s) [(1, [(1, ok_script)])] (s_lay s) 1 = true /\
   writable_after cfg000 s [(1, [(1, ok_script)])] 1 = true.
 Proof. exact readmit_oversized_witness. Qed.
 Print Assumptions c14_readmit_oversized.
 
-(* Outside both triggers the clause holds: the round leaves the volume writable
-   exactly when the criterion holds. *)
+(* Outside the three triggers (each a decidable function of the scripts and the
+   state before the round, per volume) the clause holds on every reachable state,
+   WITHOUT any assumption about the state before: the volume is writable after the
+   round exactly when it was before. *)
+Theorem c14_writable_unchanged_partial : forall c, 1 <= c_copy c ->
+  forall es, wf_history es -> forall scs v,
+    let s := run c init es in
+    trigger_stuck scs (s_lay s) v = false ->
+    trigger_readmit c (s_nodes s) scs (s_lay s) v = false ->
+    trigger_hang scs (s_lay s) v = false ->
+    writable_after c s scs v = writable s v.
+Proof. exact writable_unchanged_partial. Qed.
+Print Assumptions c14_writable_unchanged_partial.
+
+(* ... hence: exactly when the criterion holds, if it was so before. *)
 Theorem c14_writable_iff_partial : forall c, 1 <= c_copy c ->
   forall es, wf_history es -> forall scs v,
     let s := run c init es in
     trigger_stuck scs (s_lay s) v = false ->
     trigger_readmit c (s_nodes s) scs (s_lay s) v = false ->
+    trigger_hang scs (s_lay s) v = false ->
     writable s v = crit c (s_nodes s) v -> writable_after c s scs v = crit c (s_nodes s) v.
 Proof. exact writable_iff_partial. Qed.
 Print Assumptions c14_writable_iff_partial.
 
-(* non-vacuity: a clean round on a healthy two-replica volume is outside both
+(* The triggers are exact: EVERY input inside one is a violation, so no other
+   behaviour can hide in a trigger set. *)
+Theorem c14_stuck_exact : forall c, 1 <= c_copy c -> forall es, wf_history es -> forall scs v,
+  let s := run c init es in
+  trigger_stuck scs (s_lay s) v = true ->
+  writable s v = true /\ writable_after c s scs v = false /\ r_hung (round_of c s scs v) = false.
+Proof. exact stuck_exact. Qed.
+Print Assumptions c14_stuck_exact.
+
+Theorem c14_readmit_exact : forall c, 1 <= c_copy c -> forall es, wf_history es -> forall scs v,
+  let s := run c init es in
+  trigger_readmit c (s_nodes s) scs (s_lay s) v = true ->
+  writable s v = false /\ writable_after c s scs v = true.
+Proof. exact readmit_exact. Qed.
+Print Assumptions c14_readmit_exact.
+
+(* Finding 2: the commit RPC has no timer.  A replica that never answers it blocks
+   the round for ever with the volume out of writables, and every later call of
+   Topology.Vacuum returns at once (the guard is never released). *)
+Theorem c14_hang_exact : forall c, 1 <= c_copy c -> forall es, wf_history es -> forall scs v,
+  let s := run c init es in
+  trigger_hang scs (s_lay s) v = true ->
+  r_hung (round_of c s scs v) = true /\ writable_after c s scs v = false.
+Proof. exact hang_exact. Qed.
+Print Assumptions c14_hang_exact.
+
+Theorem c14_hung_blocks_later_passes : forall c q p, q_hung q = true -> q_panic q = false ->
+  let q' := pass_step c q p in
+  q_log q' = [] /\ q_hung q' = true /\ q_st q' = run c (q_st q) (p_pre p).
+Proof. exact hung_blocks_later_passes. Qed.
+Print Assumptions c14_hung_blocks_later_passes.
+
+Theorem c14_hang_witness :
+  let s := run cfg000 init stuck_history in
+  let q1 := pass_step cfg000 (pstart s) {| p_pre := []; p_scs := hang_scripts; p_mid := [] |} in
+  let q2 := pass_step cfg000 q1 {| p_pre := []; p_scs := [(1, [(1, ok_script)])]; p_mid := [] |} in
+  trigger_hang hang_scripts (s_lay s) 1 = true /\
+  q_hung q1 = true /\ log_of (q_log q1) 1 1 = [RCheck; RCompact; RCommit] /\ writable (q_st q1) 1 = false /\
+  q_log q2 = [] /\ writable (q_st q2) 1 = false /\ crit cfg000 (s_nodes (q_st q2)) 1 = true.
+Proof. exact hang_witness. Qed.
+Print Assumptions c14_hang_witness.
+
+(* Several rounds: whatever a first round did (finding 0 included), a later round
+   on the same registered state that ends in a clean commit leaves a volume that
+   meets the criterion writable — on any state. *)
+Theorem c14_recovers_on_next_clean_round : forall c s scs1 scs2 v,
+  crit_loc c (s_nodes s) (s_lay s) v = true ->
+  full_success scs2 (s_lay s) v = true ->
+  let r1 := round_of c s scs1 v in
+  writable_after c (r_st r1) scs2 v = true.
+Proof. exact recovers_on_next_clean_round. Qed.
+Print Assumptions c14_recovers_on_next_clean_round.
+
+(* Rounds are NOT atomic with respect to the master's state (no lock is held
+   between removeFromWritable and the commit).
+   Finding 3: the layout loses the volume's entry while a replica compacts ->
+   SetVolumeAvailable dereferences nil: the master panics. *)
+Theorem c14_panic_witness :
+  let s := run cfg001 init [EFull 1 [vi 1 10 false]; EFull 2 [vi 1 10 false]] in
+  let scs := [(1, [(1, ok_script); (2, sc CkUnder CpOk CmOk)])] in
+  let r := vacuum_round cfg001 s scs panic_mid 1 (lookup s 1) in
+  r_panic r = true /\ log_of (r_log r) 1 1 = [RCheck; RCompact; RCommit] /\ log_of (r_log r) 1 2 = [RCheck].
+Proof. exact panic_witness. Qed.
+Print Assumptions c14_panic_witness.
+
+(* Finding 4: a replica disconnects while it compacts; the clean commit puts the
+   unlinked DataNode back into the location list and makes the volume writable,
+   while the master that never vacuumed ([u]) lists nobody. *)
+Theorem c14_readd_unlinked_witness :
+  let s := run cfg000 init stuck_history in
+  let mid := [EDisconnect 1] in
+  let r := vacuum_round cfg000 s [(1, [(1, ok_script)])] mid 1 (lookup s 1) in
+  let u := run cfg000 s mid in
+  r_panic r = false /\ lookup (r_st r) 1 = [1] /\ writable (r_st r) 1 = true /\ s_nodes (r_st r) = [] /\
+  lookup u 1 = [] /\ writable u 1 = false.
+Proof. exact readd_unlinked_witness. Qed.
+Print Assumptions c14_readd_unlinked_witness.
+
+(* non-vacuity: a clean round on a healthy two-replica volume is outside all
    triggers, keeps the volume writable and commits on both replicas *)
 Example c14_example :
   let es := [EFull 1 [vi 1 10 false]; EFull 2 [vi 1 10 false]] in
   let s := run cfg001 init es in
   let scs := [(1, [(1, ok_script); (2, ok_script)])] in
   wf_history es /\ trigger_stuck scs (s_lay s) 1 = false /\
-  trigger_readmit cfg001 (s_nodes s) scs (s_lay s) 1 = false /\
+  trigger_readmit cfg001 (s_nodes s) scs (s_lay s) 1 = false /\ trigger_hang scs (s_lay s) 1 = false /\
   writable s 1 = true /\ crit cfg001 (s_nodes s) 1 = true /\ writable_after cfg001 s scs 1 = true /\
   log_of (r_log (round_of cfg001 s scs 1)) 1 2 = [RCheck; RCompact; RCommit].
 Proof. exact clean_round_example. Qed.
+Print Assumptions c14_example.
+
+(* non-vacuity of c14_recovers_on_next_clean_round: finding 0, then a clean round *)
+Example c14_recovers_example :
+  let s := run cfg000 init stuck_history in
+  let r1 := round_of cfg000 s stuck_scripts 1 in
+  crit_loc cfg000 (s_nodes s) (s_lay s) 1 = true /\ full_success [(1, [(1, ok_script)])] (s_lay s) 1 = true /\
+  writable s 1 = true /\ writable (r_st r1) 1 = false /\
+  writable_after cfg000 (r_st r1) [(1, [(1, ok_script)])] 1 = true.
+Proof. exact recovers_example. Qed.
+Print Assumptions c14_recovers_example.
